@@ -24,6 +24,7 @@ namespace Dropshot.DriverC10
 /-- Why the model refuses, as a class label. -/
 def refusalClass (l : SvLine) (e : Ep) (payload : Bytes) : String :=
   let (path, query) := splitTarget l.target
+  if l.target.length > maxUriLen then "uri-too-long" else
   match lookupVars e.route path with
   | .badPath => "path-undecodable"
   | .noRoute => "no-route"
@@ -49,7 +50,7 @@ def refusalClass (l : SvLine) (e : Ep) (payload : Bytes) : String :=
           match shape sh with
           | none => "?"
           | some fs =>
-            match loadBody (JsonBody.decodeStrict fs) (extractQuery (.struct fs)) ect bodyCap hdr payload with
+            match loadBody (JsonBody.decodeStrict fs) (extractQuery (.struct fs)) ect e.cap hdr payload with
             | .ok _ => "none"
             | .error .tooLarge => "body-too-large"
             | .error .headerNotStr => "ct-not-ascii"
@@ -58,6 +59,7 @@ def refusalClass (l : SvLine) (e : Ep) (payload : Bytes) : String :=
             | .error (.decode er) => (if ect == .json then "json-" else "form-") ++ errKind er
             | .error .json => "json-syntax"
         | none, "raw" => if payload.length > bodyCap then "body-too-large" else "none"
+        | none, "page" => if (pageVerdict (query.getD [])).isNone then "page-params" else "none"
         | none, "mp" =>
           match multipartBoundary hdr with
           | .error .noHeader => "mp-no-header"
@@ -80,11 +82,21 @@ def handleBad (inp impl : List String) : String :=
         let vSpec := verdict l e payload true
         let agree := agrees l vAsIs && reenc
         let is4xx := 400 ≤ l.status && l.status < 500
+        -- a long-value case is labelled by the position the value was put in
+        let longPos := match l.extra.splitOn "." with
+          | ["long", pos, _] => some pos
+          | _ => none
         let (specOk, cls) := match vSpec with
-          | .refused _ =>
-            (is4xx && l.delta == "0" && l.errBody == "1" && l.followup == "1",
-              if jsonTrailing l e payload then s!"bad-{l.ep}-json-trailing"
-              else s!"bad-{l.ep}-{refusalClass l e payload}")
+          | .refused st =>
+            -- a request target that `http::Uri` cannot hold is answered by hyper (414,
+            -- no framework body): everything else of the property is still required
+            let bodyOk := l.errBody == "1" || (st == 414 && l.status == 414)
+            (is4xx && l.delta == "0" && bodyOk && l.followup == "1",
+              match longPos with
+              | some pos => s!"long-{pos}-{refusalClass l e payload}"
+              | none =>
+                if jsonTrailing l e payload then s!"bad-{l.ep}-json-trailing"
+                else s!"bad-{l.ep}-{refusalClass l e payload}")
           | _ =>
             (l.status == 200 && l.delta == "1" && l.followup == "1", s!"still-valid-{l.ep}")
         out l.id agree (b2s specOk) cls "-" (verdictStr vAsIs)
@@ -94,6 +106,19 @@ def handle (line : String) : String :=
   let (inp, impl) := splitAt "=>" fs
   match inp with
   | "bad" :: _ => handleBad inp impl
+  | ["fl", id, hook, sh, _label, ents] =>
+    -- the hooks inside catch_unwind: a panic is a failure of the property
+    match sh.toNat?.bind shape, parseEntries ents with
+    | some sfs, some vars =>
+      let r := mapDe (.struct sfs) vars
+      let m := if hook == "path" then (match r with | .ok v => "ok " ++ canonVal v | .error _ => "err 400")
+        else resField r
+      let got := " ".intercalate impl
+      let panicked := got == "panic"
+      let cls := if panicked then "panic" else
+        s!"fl-{hook}-{sh}-{match r with | .ok _ => "ok" | .error er => errKind er}"
+      out id (m == got) (b2s (!panicked)) cls "-" m
+    | _, _ => bad id "parse"
   | _ => bad "?" "unknown-stream"
 
 end Dropshot.DriverC10
